@@ -962,6 +962,28 @@ PROPS["C17"] = {
         "Lace.C17.label_resolves",
         "Lace.C17.label_out_of_range",
         "Lace.C17.unknown_label",
+        # the breakpoint table (Props/C17Table.lean)
+        "Lace.C17.printCell_eq_bpCell",
+        "Lace.C17.bpCell_length",
+        "Lace.C17.bpCell_fits",
+        "Lace.C17.bpCell_truncates",
+        "Lace.C17.label_cell_rule",
+        "Lace.C17.line_cell_rule",
+        "Lace.C17.getSingleLine_eq_showSingleLine",
+        "Lace.C17.bp_table_line_eq_assembly",
+        "Lace.C17.bp_table_empty",
+        "Lace.C17.bp_table_line_statement",
+        "Lace.C17.bp_table_line_blank",
+        "Lace.C17.break_list_normal_no_panic",
+        "Lace.C17.bp_table_label",
+        "Lace.C17.bp_table_label_sound",
+        "Lace.C17.bp_table_label_none",
+        "Lace.C17.bp_table_label_mem",
+        "Lace.C17.resolveSymbolName_perm",
+        "Lace.C17.bp_table_rows",
+        "Lace.C17.bp_table_sorted",
+        "Lace.C17.bpRows_eq",
+        "Lace.C17.two_labels_one_line",
     ],
     "compare": cmp_default,
     "classify": src_classify,
